@@ -125,6 +125,24 @@ def main():
                      T_("(")] + asrt[2:] + [T_(")")], rng)
         c["constdecl"] = [["k", val]]
         cases.append(c)
+    # identifiers with a field or a trailing dot whose head is known to the parser in another role: a constant declared through
+    # the API (k) or in the text (c), the name of an earlier assertion (sub), the output itself (seed C14-f)
+    subd = [T_("id", "sub", "sub"), T_("="), T_("id", "x", "x"), T_("cmp", "ge", ">="), T_("num", 1, "1"), T_(";")]
+    for head, pre in (("k", []), ("c", constd), ("sub", subd), ("out", []), ("x", []), ("x", vard("float", "x"))):
+        for tail in (".value", ".", ".a.b"):
+            nm = head + tail
+            for ts in (pre + [T_("id", "out", "out"), T_("="), T_("id", nm, nm), T_("cmp", "ge", ">="), T_("num", 1, "1")],
+                       pre + [T_("id", "out", "out"), T_("="), T_("(")] + asrt[2:] + [T_(")"), T_("and", "", "and"), T_("("), T_("id", nm, nm), T_("cmp", "ge", ">="), T_("num", 1, "1"), T_(")")],
+                       pre + [T_("id", nm, nm), T_("=")] + asrt[2:]):
+                cases.append(mk_case(ts, rng))
+    # a constant whose declared value is not a number, used as an operand and as a bound (declare_const('k', 'float', 'abc'))
+    for val in ("abc", "", "1,5", "0x10", "@None"):
+        for ts in ([T_("id", "out", "out"), T_("="), T_("id", "x", "x"), T_("cmp", "ge", ">="), T_("id", "k", "k")],
+                   [T_("id", "out", "out"), T_("="), T_("abs", "", "abs"), T_("("), T_("id", "k", "k"), T_(")"), T_("cmp", "ge", ">="), T_("id", "x", "x")],
+                   [T_("id", "out", "out"), T_("="), T_("once", "", "once"), T_("["), T_("id", "k", "k"), T_(":"), T_("id", "k", "k"), T_("]"), T_("(")] + asrt[2:] + [T_(")")]):
+            c = mk_case(ts, rng)
+            c["constdecl"] = [["k", val]]
+            cases.append(c)
     # empty and blank texts
     for txt in ("", " ", ";", "\n"):
         c = mk_case([lang.T(";")] if txt.strip() == ";" else [], rng)
